@@ -14,6 +14,7 @@ def first_line_detection(P, rep, rid):
     le = P.cls('pydiffx.options', 'LineEndings')
     DOS, UNIX = P.fold_class_attr(le, 'DOS'), P.fold_class_attr(le, 'UNIX')
     I = Interp(P)
+    I.record_compares = True
     bad = {}
     ok = 0
 
@@ -58,6 +59,14 @@ def first_line_detection(P, rep, rid):
             if decided is True:
                 ok += 1
             else:
+                for ev in path.events:
+                    # the first-line test spelled as equality of a slice of the text (not endswith): an idiom this rule
+                    # does not evaluate - never a verdict
+                    if ev.kind == 'compare' and ev.data['op'] in ('Eq', 'NotEq'):
+                        for side in (ev.data['l'], ev.data['r']):
+                            if isinstance(side, Unk) and side.src and side.src[0] == 'slice' and side.src[1] is text:
+                                raise AnalysisError('guess_line_endings decides by comparing a slice of the text for equality [%s]: '
+                                                    'an idiom of the first-line test this rule does not evaluate' % norm(ev.node)[:60])
                 bad.setdefault('dos', 'DOS is returned on a path where the text up to the first LF was not tested to end with CRLF '
                                '(detection no longer looks at the first line only: a CRLF anywhere, or none at all, decides)')
         elif kind == UNIX:
